@@ -63,7 +63,7 @@ func vfUpRun(b *blobUpload, ctx context.Context, opts *registryOptions) {
 		b.done = true
 	}
 	vfUpSettled = true
-	vfMgrDelete(nil, b.Digest)
+	vfMgrDelete(nil, b.key) // as the real Run does (deferred)
 }
 
 func vfUploadLayer() Layer {
